@@ -58,7 +58,7 @@ impl<'a> Gen<'a> {
     fn key_strings(k: KeyTy) -> [&'static str; 2] {
         match k {
             KeyTy::Str => ["ka", "kb"],
-            KeyTy::U8 => ["1", "2"],
+            KeyTy::U8 | KeyTy::Gen => ["1", "2"],
             KeyTy::I32 => ["-1", "7"],
             KeyTy::Bool => ["false", "true"],
             KeyTy::Char => ["x", "y"],
@@ -492,7 +492,7 @@ impl<'a> Gen<'a> {
                 let fresh = self.valid(val, &mut cx, depth);
                 let extra: &[&str] = match key {
                     KeyTy::Str => &["", "kc"],
-                    KeyTy::U8 => &["x", "01", "256", "-1", "+2", "", " 1", "2 ", "\t3", "007", "-0", "+0", "1e1", "0x1"],
+                    KeyTy::U8 | KeyTy::Gen => &["x", "01", "256", "-1", "+2", "", " 1", "2 ", "\t3", "007", "-0", "+0", "1e1", "0x1"],
                     KeyTy::I32 => &["x", "-01", "1.5", "2147483648", " 7", "-7\u{a0}", "+7", "-0", "007", "--1", "-2147483648", "-2147483649"],
                     KeyTy::Bool => &["True", "1", "", " true", "false ", "TRUE", "yes", "0"],
                     KeyTy::Char => &["xy", "", "é", " x", "y "],
